@@ -209,7 +209,7 @@ class DecimalRenderer(ColumnRenderer):
             return str(value).rjust(self.nintegral).ljust(self.maxwidth)
         # Compute the padding required to align the decimal point.
         left = self.nintegral - (max(1, len(n.digits) + n.exponent) + n.sign)
-        return f'{"":>{left}}{value:<{self.maxwidth - left}}'
+        return f'{"":>{left}}{value:<{self.maxwidth - left}f}'
 
 
 class AmountRenderer(ColumnRenderer):
